@@ -263,7 +263,7 @@ def tools(ctx, shard, nshards):
     V = Viol(sub, "C13")
     rnd = random.Random(ctx.sub_seed("c13t", shard))
     B = boundary()
-    for it in range(40 if not ctx.thorough else 900):
+    for it in range(70 if not ctx.thorough else 1200):
         tool, pre, modes = rnd.choice(CATALOGUE)
         mode = rnd.choice(modes)
         k = rnd.randrange(2, 40)
